@@ -57,3 +57,9 @@ Print Assumptions C19_array_remove_bad_index.
 Theorem C19_array_at_refines : forall a idx, arr_at a idx = nth_error (arr_abs a) idx.
 Proof. exact arr_at_refines. Qed.
 Print Assumptions C19_array_at_refines.
+
+(* ares_array_finish after any sequence of calls hands out exactly the list, in order. *)
+Theorem C19_array_run_finish : forall ops : list arr_op,
+  arr_finish (fst (arr_run arr_create (map (fun o => (true, o)) ops))) = Ok (fst (aspec_run [] ops)).
+Proof. exact arr_run_finish. Qed.
+Print Assumptions C19_array_run_finish.
